@@ -610,6 +610,11 @@ def mt_tables(d):
     out["forms"].append(("default-dispatch", fn is not None and fn["body"].endswith(
         "letvalues=msg_ty.emit_ctx_values();letmsg_name=msg_ty.as_accessor_wrapper_name();letapi_msg=quote!{<#contract_nameas#sylvia::types::ContractApi>::#msg_name};"
         "quote!{#sylvia::cw_std::from_json::<#api_msg>(&msg)?.dispatch(self,(#values)).map_err(Into::into)}}")))
+    fn = d.fn("parser/attributes/override_entry_point.rs", "OverrideEntryPoint", "emit_multitest_dispatch")
+    out["forms"].append(("override-dispatch", fn is not None and fn["body"] == (
+        "{letSelf{entry_point,msg_name,msg_type,..}=self;letsylvia=crate_module();letvalues=msg_type.emit_ctx_values();"
+        "if*msg_type==MsgType::Reply{returnquote!{#entry_point(#values.into(),msg).map_err(Into::into)};}"
+        "quote!{#entry_point(#values.into(),#sylvia::cw_std::from_json::<#msg_name>(&msg)?).map_err(Into::into)}}")))
     fn = d.fn("contract/mt.rs", "MtHelpers", "emit_impl_contract")
     if fn:
         var_kind = {}
